@@ -505,7 +505,11 @@ pub fn gen_scenario(rng: &mut Rng) -> Scenario {
     let hash_seed = if rng.chance(1, 4) { 0 } else { rng.next_u64() };
     let clock = gen_clock(rng);
     let file_style = rng.chance(1, 3);
-    let inputs_json = if rng.chance(1, 2) { "{}".to_string() } else { "{\"k\": 3, \"xs\": [1, 2]}".to_string() };
+    let inputs_json = match rng.below(4) {
+        0 | 1 => "{}".to_string(),
+        2 => "{\"k\": 3, \"xs\": [1, 2]}".to_string(),
+        _ => "{\"k\": 3, \"fn\": {\"__blots_function\": \"(x) => x + 1\"}}".to_string(),
+    };
     Scenario { hash_seed, clock, file_style, probe_every: true, inputs_json, stmts, faults: vec![] }
 }
 
@@ -540,6 +544,8 @@ pub struct Model {
     pub stats: Counters,
     probe_every: bool,
     hasher: u64,
+    /// after each statement: name -> JSON of the bound value (data only), for the CLI cross-check
+    pub snapshots: Vec<BTreeMap<String, serde_json::Value>>,
 }
 
 fn probe_sources(root: &str, path: &str, args: &[blots_core::values::LambdaArg]) -> Vec<String> {
@@ -599,6 +605,7 @@ impl Model {
             stats: Counters::default(),
             probe_every,
             hasher: 0,
+            snapshots: vec![],
         };
         m.tc.insert("inputs".into());
         let o = m.observe(sess, false);
@@ -703,6 +710,12 @@ impl Model {
         let fi = stmt_frame(&s.stmt);
         let analysable = stmt_expr(&s.stmt).map(|e| !contains_raw(&e)).unwrap_or(true);
 
+        // 0. every binding can be read back
+        for (k, c) in &after.keys {
+            if c.as_deref() == Some(UNREADABLE) {
+                self.fail("binding-unreadable", gi, format!("{} is bound but reading its value back from the heap panics (released or foreign cell)", k));
+            }
+        }
         // 1. stability of everything observed bound so far
         let bound_names: Vec<String> = self.bound.keys().cloned().collect();
         for n in bound_names {
@@ -826,6 +839,30 @@ impl Model {
                 self.bound.insert(k.clone(), (c.clone(), ps));
             }
         }
+        if self.probe_every {
+            let mut snap = BTreeMap::new();
+            if !sess.dead.get() {
+                for (k, v) in sess.root() {
+                    if k == "inputs" {
+                        continue;
+                    }
+                    if let Some(sv) = sess.serializable_of(&v) {
+                        let j = sv.to_json();
+                        if !j.to_string().contains("__blots_function") {
+                            snap.insert(k, j);
+                        }
+                    }
+                }
+            }
+            while self.snapshots.len() < gi {
+                self.snapshots.push(BTreeMap::new());
+            }
+            if self.snapshots.len() == gi {
+                self.snapshots.push(snap);
+            } else {
+                self.snapshots[gi] = snap;
+            }
+        }
         self.last = after2;
     }
 }
@@ -841,6 +878,7 @@ pub struct Exec {
     pub hash: u64,
     pub stats: Counters,
     pub clock_advance_ns: i64,
+    pub snapshots: Vec<BTreeMap<String, serde_json::Value>>,
 }
 
 fn cfg_for(sc: &Scenario, i: usize) -> EvalCfg {
@@ -928,13 +966,76 @@ pub fn execute(sc: &Scenario) -> Exec {
                 outcomes.push(outs[0].clone());
             }
         }
-        Exec { outcomes, violation: model.violation.clone(), hash: model.history_hash(), stats: model.stats.clone(), clock_advance_ns: 0 }
+        Exec { outcomes, violation: model.violation.clone(), hash: model.history_hash(), stats: model.stats.clone(), clock_advance_ns: 0, snapshots: model.snapshots.clone() }
     });
     // profiling statistics are a process-global vector that grows with every call: drop them
     blots_core::functions::clear_function_call_stats();
     ex.clock_advance_ns = seam.clock_advance_ns;
     ex.stats.add("clock_reads", seam.clock_reads);
     ex
+}
+
+// ---------------------------------------------------------------------------------------
+// Second observation point: the real CLI. The successful prefix of a session is written as a
+// script that ends by re-declaring every data binding as an output; the emitted object must
+// equal what the in-process session observed through those names.
+// ---------------------------------------------------------------------------------------
+
+pub fn cli_cross_check(sc: &Scenario, ex: &Exec) -> Option<Viol> {
+    let cli = crate::c19::cli_path();
+    if !std::path::Path::new(&cli).exists() {
+        return None;
+    }
+    let prefix = ex.outcomes.iter().position(|o| o.status != Status::Ok).unwrap_or(ex.outcomes.len());
+    if prefix == 0 || ex.snapshots.len() < prefix {
+        return None;
+    }
+    let snap = &ex.snapshots[prefix - 1];
+    if snap.is_empty() {
+        return None;
+    }
+    let mut src: Vec<String> = sc.stmts[..prefix].iter().map(|s| show_stmt(&s.stmt)).collect();
+    for k in snap.keys() {
+        src.push(format!("output {}", k));
+    }
+    let script = src.join("\n") + "\n";
+    let inv = crate::cli::Invocation {
+        argv: vec!["-i".into(), sc.inputs_json.clone(), "prog.blots".into()],
+        stdin: crate::cli::StdinKind::DevNull,
+        stdout: crate::cli::StdoutKind::Pipe,
+        files: vec![("prog.blots".into(), script.clone().into_bytes())],
+        dirs: vec![],
+        plan: None,
+        src_suffix: "prog.blots".into(),
+        out_suffix: "out.json".into(),
+        aslr_off: false,
+        out_path: None,
+    };
+    let rr = crate::cli::run_cli(&cli, &crate::c19::shim_path(), &inv);
+    let stmt = prefix - 1;
+    if rr.exit != Some(0) {
+        return Some(Viol {
+            clause: "cli-bindings-differ".into(),
+            stmt,
+            detail: format!("every statement of the prefix succeeds in-process but the CLI exits {:?}: {}", rr.exit, String::from_utf8_lossy(&rr.stdout).chars().take(300).collect::<String>()),
+        });
+    }
+    let text = String::from_utf8_lossy(&rr.stdout).to_string();
+    let last = text.lines().last().unwrap_or("");
+    match serde_json::from_str::<serde_json::Value>(last) {
+        Ok(serde_json::Value::Object(o)) => {
+            for (k, v) in snap {
+                match o.get(k) {
+                    Some(got) if got == v => {}
+                    other => {
+                        return Some(Viol { clause: "cli-bindings-differ".into(), stmt, detail: format!("{}: CLI output {:?}, in-process binding {}", k, other, v) });
+                    }
+                }
+            }
+            None
+        }
+        _ => Some(Viol { clause: "cli-bindings-differ".into(), stmt, detail: format!("CLI stdout is not an outputs object: {:?}", text.chars().take(300).collect::<String>()) }),
+    }
 }
 
 // ---------------------------------------------------------------------------------------
@@ -965,7 +1066,11 @@ pub fn shrink(sc: &Scenario, clause: &str, budget: &mut u64) -> Scenario {
             return false;
         }
         *budget -= 1;
-        matches!(execute(c).violation, Some(v) if v.clause == clause)
+        let ex = execute(c);
+        if clause == "cli-bindings-differ" {
+            return ex.violation.is_none() && matches!(cli_cross_check(c, &ex), Some(v) if v.clause == clause);
+        }
+        matches!(ex.violation, Some(v) if v.clause == clause)
     };
     let mut cur = sc.clone();
     loop {
@@ -1165,7 +1270,12 @@ pub fn replay(path: &str) -> i32 {
         eprintln!("HARNESS-ERROR: history hash differs on replay: recorded {} got {}", want_hash, got_hash);
         return 2;
     }
-    match ex.violation {
+    let viol = match ex.violation.clone() {
+        Some(v) => Some(v),
+        None => cli_cross_check(&sc, &ex),
+    };
+    crate::cli::cleanup_sandboxes();
+    match viol {
         Some(v) => {
             println!("VIOLATION property=C03 replay={}", path);
             println!("  clause={} statement={} detail={}", v.clause, v.stmt, v.detail);
@@ -1357,6 +1467,12 @@ pub fn run_one(seed: u64, run: u64, agg: &mut Batch, keep_hashes: bool) {
             }),
         ));
     }
+    if ex0.violation.is_none() && run % 4 == 0 {
+        agg.c.inc("cli_cross_checks");
+        if let Some(v) = cli_cross_check(&sc, &ex0) {
+            agg.violations.push((run, sc.clone(), v, ex0.hash));
+        }
+    }
     if ex0.violation.is_some() {
         // the fault-free run already violates: enumerate nothing further for this session
         if keep_hashes {
@@ -1433,12 +1549,13 @@ pub fn main_batch(tier: &str, sessions: u64) -> i32 {
         let mut budget = 1500u64;
         let min = shrink(sc, &v.clause, &mut budget);
         let ex = execute(&min);
-        let mv = ex.violation.clone().unwrap_or_else(|| v.clone());
+        let mv = ex.violation.clone().or_else(|| cli_cross_check(&min, &ex)).unwrap_or_else(|| v.clone());
         let sig = signature(&min, &mv);
         let name = format!("C03-{}-{}-{:08x}", seed, run, fnv64(sig.as_bytes()) as u32);
         let path = write_replay(&name, &replay_doc(&min, &mv, ex.hash, seed, *run, (sc.stmts.len(), sc.faults.len())));
         out.push(Violation { property: "C03".into(), clause: mv.clause.clone(), detail: mv.detail.clone(), signature: sig, run: *run, replay: Some(path) });
     }
+    crate::cli::cleanup_sandboxes();
     let wall = (crate::seams::real_monotonic_ns() - t0) as f64 / 1e9;
     let execs = agg.c.get("executions");
     let mut extra = serde_json::Map::new();
